@@ -64,6 +64,7 @@ def main():
     p1 = p1.replace('<!--SEEDED-TABLE-->', seeded_table())
     p1 = p1.replace('<!--SEEDED-TABLE-2-->', seeded_table('C??-r2m?'))
     p1 = p1.replace('<!--SEEDED-TABLE-3-->', seeded_table('C??-r3m?'))
+    p1 = p1.replace('<!--SEEDED-TABLE-4-->', seeded_table('C??-r4m?'))
     out = p1.rstrip('\n') + '\n\n# Part II — the design as written before the build\n\n' + p2
     open(os.path.join(V, 'DESIGN.md'), 'w').write(out)
     print('DESIGN.md', len(out.split('\n')), 'lines')
